@@ -166,9 +166,10 @@ class StmtMixin:
         loop_id = st.uid()
         names, _ = self._assigned_in(n.body)
         touched_heap, touched_regs = set(), set()
+        frozen_locs = set()       # fields of self / the factory the body assigns (whether or not anything is known about them)
         body_paths = []
         extra = {}
-        for attempt in range(5):
+        for attempt in range(6):
             base = st.fork()
             base.events = []
             for nm in names:
@@ -177,9 +178,10 @@ class StmtMixin:
                 base.heap.pop(k, None)
                 for fk in [fk for fk in base.facts if mentions(fk, ("attr",) + k)]:
                     del base.facts[fk]
-                # a local bound before the loop to such a field keeps the value it had then, not the current one
+            # a local bound before the loop to a field the body re-assigns keeps the value it had then, not the current one
+            for k in touched_heap | frozen_locs:
                 for nm, v in list(base.env.items()):
-                    if nm not in names and isinstance(v, tuple) and mentions(v, ("attr",) + k):
+                    if nm not in names and isinstance(v, tuple) and v[:1] != ("old",) and mentions(v, ("attr",) + k):
                         base.env[nm] = ("old", v, loop_id)
             for rg in touched_regs:
                 base.hits = {h for h in base.hits if h[0] != rg}
@@ -197,11 +199,13 @@ class StmtMixin:
                         th.add((e.a["obj"], e.a["field"]))
                     elif e.kind == "STATE":
                         th.add((SELF, "state"))
+            fl = {k for k in th if k[0] in (SELF, FAC)}
             th = {k for k in th if k in st.heap or any(mentions(fk, ("attr",) + k) for fk in st.facts)}
-            if th <= touched_heap and tr <= touched_regs:
+            if th <= touched_heap and tr <= touched_regs and fl <= frozen_locs:
                 break
             touched_heap |= th
             touched_regs |= tr
+            frozen_locs |= fl
         else:
             raise AnalysisError("loop at %s:%d does not stabilise" % (fx.func.file, n.lineno))
         info = dict(info)
@@ -217,8 +221,9 @@ class StmtMixin:
             st.heap.pop(k, None)
             for fk in [fk for fk in st.facts if mentions(fk, ("attr",) + k)]:
                 del st.facts[fk]
+        for k in touched_heap | frozen_locs:
             for nm, v in list(st.env.items()):
-                if nm not in names and isinstance(v, tuple) and mentions(v, ("attr",) + k):
+                if nm not in names and isinstance(v, tuple) and v[:1] != ("old",) and mentions(v, ("attr",) + k):
                     st.env[nm] = ("old", v, loop_id)
         for rg in touched_regs:
             st.hits = {h for h in st.hits if h[0] != rg}
@@ -306,6 +311,8 @@ class StmtMixin:
                 if f[0] == "builtin" and f[1] in ("list", "tuple", "sorted", "reversed", "iter", "set") and it[2]:
                     inner = self._iter_elem(it[2][0], loop_id)
                     return inner
+            if it[0] == "reg" and it[1] in getattr(self, "seq_registries", ()):
+                return ("elem", it[1], ("keyof", it[1], loop_id))      # iterating a deque of requests yields the requests
             if it[0] == "reg":
                 return ("keyof", it[1], loop_id)
             if it[0] in ("list", "tuple") and len(it[1]) == 1:
